@@ -45,7 +45,7 @@ VARIABLES
     lock,    \* size of the lock-store checkpoint
     staged,  \* tiles (Tiling records) in the staging bundle
     mode,    \* "log" | "mirror"
-    phase    \* model only: "run" | "done" | "run2" | "done2"
+    phase    \* model only: "run" | "done"
 
 vars == <<dir0, dir, pub, pv, lock, staged, mode, phase>>
 
@@ -58,12 +58,21 @@ SameTile(f, g) == f.k = g.k /\ f.l = g.l /\ f.n = g.n
 RECURSIVE DivPow(_, _)
 DivPow(x, e) == IF e <= 0 \/ x = 0 THEN x ELSE DivPow(x \div TW, e - 1)
 
-\* t \in AllTiles(n), by arithmetic (AllTiles(n) itself has n/TW elements;
-\* the two are compared by TLC in MC_aftersun.cfg, see InTreeIsAllTiles)
+\* t \in AllTiles(n), by arithmetic (AllTiles(n) itself has n/TW elements).
+\* TLC compares the two on every tile and size of the model (MaxN = 0 in the
+\* trace configuration, where TW = 256).
 InTree(t, n) ==
     LET m == DivPow(n, t.l) IN
     IF t.w = TW THEN (t.n + 1) * TW <= m
     ELSE t.n = m \div TW /\ t.w = m % TW
+
+MaxD == CHOOSE d \in Deltas : \A e \in Deltas : e <= d
+ASSUME MaxN = 0 \/
+       \A n \in 0..(MaxN + MaxD) :
+          LET A == AllTiles(n) IN
+          \A k \in {"hash", "data", "names"} : \A l \in 0..(IF k = "hash" THEN MaxLevel + 1 ELSE 0) :
+          \A i \in 0..(MaxN + MaxD) : \A w \in 1..TW :
+             InTree(Tile(k, l, i, w), n) = (Tile(k, l, i, w) \in A)
 
 (***************************************************************************)
 (* The property.                                                           *)
@@ -101,7 +110,8 @@ Needed(n) == {t \in AllTiles(n) : t.k \in Kinds}
 \* it can fetch now (from the directory, or for the lock checkpoint from the
 \* staging bundle, which a restart uploads)
 StillThere(n, extra) ==
-    \A t \in (Readable(dir0) \cup extra) \ (Readable(dir) \cup extra) : ~InTree(t, n)
+    \A f \in Removed : f.t \in {"full", "partial"} =>
+        LET t == Tile(f.k, f.l, f.n, f.w) IN t \in extra \/ ~InTree(t, n)
 ServablePub  == pv => StillThere(pub, {})
 ServableLock == StillThere(lock, staged)
 
@@ -117,7 +127,8 @@ NoDataLoss ==
         \E g \in dir : g.t \in {"full", "partial"} /\ SameTile(f, g) /\ g.w >= f.w
 
 \* what LoadLog reads
-Restartable(d) == {t \in RightEdge(lock) : t.k \in Kinds} \subseteq (Readable(d) \cup staged)
+Edge(n) == LET A == Needed(n) IN {t \in A : \A u \in A : (u.k = t.k /\ u.l = t.l) => u.n <= t.n}
+Restartable(d) == Edge(lock) \subseteq (Readable(d) \cup staged)
 RestartOK == Restartable(dir0) => Restartable(dir)
 
 (***************************************************************************)
@@ -159,21 +170,20 @@ Fixed == { F("other", "", 0, 0, 0, "checkpoint"), F("other", "", 0, 0, 0, "log.v
 
 Files(ts) == {OfTile(t) : t \in ts} \cup {PDirOf(t) : t \in PartialsOf(ts)}
 
-Damages(ts) ==
-    {<<"none", Tile("hash", 0, 0, TW)>>} \cup
+\* one defect per directory: a full tile (index 0) missing or empty, a
+\* temporary file inside a directory NNN.p, an empty directory NNN.p
+NoTile == Tile("hash", 0, 0, TW)
+Defects(ts) ==
+    {<<"none", NoTile>>, <<"pjunk", NoTile>>, <<"epdir", NoTile>>} \cup
     ({"missing", "empty"} \X {t \in FullsOf(ts) : t.n = 0 /\ t.k \in {"hash", "data"}})
 
-ApplyDamage(fs, dmg) ==
-    CASE dmg[1] = "none"    -> fs
-      [] dmg[1] = "missing" -> fs \ {OfTile(dmg[2])}
-      [] dmg[1] = "empty"   -> (fs \ {OfTile(dmg[2])}) \cup {F("empty", dmg[2].k, dmg[2].l, dmg[2].n, TW, "")}
-
-Leftovers == {"none", "pjunk", "epdir"}
-ApplyLeftover(fs, lo) ==
+ApplyDefect(fs, df) ==
     LET p == F("pdir", "hash", 0, 0, 0, "") IN
-    CASE lo = "none"  -> fs
-      [] lo = "pjunk" -> fs \cup {p, F("pjunk", "hash", 0, 0, 0, "tile/0/000.p/.1tmp")}
-      [] lo = "epdir" -> fs \cup {p}
+    CASE df[1] = "none"    -> fs
+      [] df[1] = "missing" -> fs \ {OfTile(df[2])}
+      [] df[1] = "empty"   -> (fs \ {OfTile(df[2])}) \cup {F("empty", df[2].k, df[2].l, df[2].n, TW, "")}
+      [] df[1] = "pjunk"   -> fs \cup {p, F("pjunk", "hash", 0, 0, 0, "tile/0/000.p/.1tmp")}
+      [] df[1] = "epdir"   -> fs \cup {p}
 
 Init ==
     /\ mode = "log"
@@ -184,51 +194,35 @@ Init ==
     /\ \E up \in {{}, FullsOf(staged), PartialsOf(staged), staged} :   \* uploaded before the sequencer died
        \E old \in SUBSET (OldHashPartials(pub) \ AllTiles(pub)) :       \* left behind by earlier rounds
        LET ts == AllTiles(pub) \cup up \cup Twins(old) IN
-       \E dmg \in Damages(ts) :
-       \E lo \in Leftovers :
-       \E v \in BOOLEAN :
-          /\ (~v => dmg[1] = "none" /\ lo = "none")
+       \E df \in Defects(ts) :
+       \E v \in IF df[1] = "none" THEN BOOLEAN ELSE {TRUE} :
           /\ pv = v
-          /\ dir = ApplyLeftover(ApplyDamage(Files(ts), dmg), lo) \cup Fixed
+          /\ dir = ApplyDefect(Files(ts), df) \cup Fixed
     /\ dir0 = dir
 
-Running == phase \in {"run", "run2"}
-
 Delete ==
-    /\ Running
+    /\ phase = "run"
     /\ Cands # {}
     /\ dir' = dir \ {Victim}
     /\ UNCHANGED <<dir0, pub, pv, lock, staged, mode, phase>>
 
 \* the tool finishes, gives up on an error, or is killed: at any moment
 Stop ==
-    /\ Running
-    /\ phase' = IF phase = "run" THEN "done" ELSE "done2"
+    /\ phase = "run"
+    /\ phase' = "done"
     /\ UNCHANGED <<dir0, dir, pub, pv, lock, staged, mode>>
 
-\* LoadLog applies the staging bundle, the next round publishes; then the tool
-\* runs once more
-Restart ==
-    /\ phase = "done"
-    /\ pv /\ Restartable(dir)
-    /\ dir' = dir \cup Files(staged)
-    /\ dir0' = dir'
-    /\ pub' = lock
-    /\ staged' = {}
-    /\ phase' = "run2"
-    /\ UNCHANGED <<pv, lock, mode>>
-
-Next == Delete \/ Stop \/ Restart
+\* A restart (LoadLog applies the staging bundle, the next round publishes
+\* the lock checkpoint) turns a stopped state into the initial state with
+\* pub = lock and the remaining partial tiles, so later runs of the tool are
+\* covered by Init.
+Next == Delete \/ Stop
 Spec == Init /\ [][Next]_vars
 
 TypeOK ==
     /\ dir \subseteq dir0
     /\ \A f \in dir0 : f.t \in {"full", "partial", "pdir", "empty", "pjunk", "junk", "other", "dir"}
     /\ pub \in Nat /\ lock >= pub /\ pv \in BOOLEAN
-
-\* the arithmetic membership test is AllTiles
-InTreeIsAllTiles ==
-    \A t \in Readable(dir0) \cup staged : InTree(t, pub) = (t \in AllTiles(pub)) /\ InTree(t, lock) = (t \in AllTiles(lock))
 
 \* what the abstract tool with all its guards removes is exactly Deletable
 ToolIsDeletable ==
